@@ -289,7 +289,9 @@ def factorize_1d(
         labels = pd.Categorical(cat.categories, ordered=cat.ordered)
         labels = pd.Index(labels, name=values.name)
         return codes, labels
-    elif pd.api.types.is_bool_dtype(values):
+    elif values.dtype == np.bool_:
+        # NumPy booleans only: the nullable "boolean" dtype may hold NA and takes the
+        # general route below
         codes = np.asarray(values).view("int8")
         labels = pd.Index([False, True], name=values.name)
         return codes, labels
